@@ -52,6 +52,19 @@ def any_table(rng):
 
 def invalid_update(rng):
     """(value, reason) - an update the library must reject."""
+    if rng.random() < 0.4:
+        # a valid random table (new, unusual keys first) with one bad entry somewhere after them
+        t = random_table(rng, nkeys=rng.randint(1, 5), q=rng.choice([1, 3, 5, 8]))
+        items = list(t.items())
+        rng.shuffle(items)
+        bad = rng.choice([("C", -1), ("O", 1.5), ("Xx", 2), ("N+", 3), ("S", None), ("C+0", 1), ("P", "3"), ("c", 2)])
+        items = [kv for kv in items if kv[0] != bad[0]]     # the bad entry must not be overridden by a valid twin
+        items.insert(rng.randint(min(1, len(items)), len(items)), bad)
+        d = dict(items)
+        if rng.random() < 0.15:
+            d.pop("?", None)
+            return d, "missing ? (after valid keys)"
+        return d, "valid keys then " + repr(bad[0])
     return rng.choice([
         ({"C": 4}, "missing ?"),
         ({"?": 4, "Xx": 1}, "bad element"),
